@@ -67,7 +67,7 @@ class BlockData:
         :param new: The new block to add to the data
         :type new: Block
         """
-        if before == self.__root:
+        if before is self.__root:
             self.__root = new
         else:
             if before.previous:
@@ -86,7 +86,7 @@ class BlockData:
         :param new: The new block to add to the data
         :type new: Block
         """
-        if after == self.__head:
+        if after is self.__head:
             self.__head = new
         else:
             if after.next:
